@@ -1,7 +1,7 @@
 /-
   Queue well-formedness of an order book (`QInv`) — the invariant behind "no participation is visited twice
   within one wager" — and its preservation by the book-level operations of deposits and withdrawals.
-  Layer 0: generic facts about keyed stores; layer 1: `SInv` / `QV` / `QInv`, deposit, withdrawal.
+  Layer 0: generic facts about keyed stores; layer 1: `BkSInv` / `QV` / `QInv`, deposit, withdrawal.
 -/
 import SgeProofs.Lemmas.CustodyOps
 namespace Sge.Core
@@ -10,7 +10,7 @@ open Sge Sge.Genesis
 -- ---------------------------------------------------------------------------------------------
 -- keyed stores
 
-theorem lookup_mem {α : Type} {key : α → List Nat} {k : List Nat} {l : List α} {y : α}
+theorem lookup_memQ {α : Type} {key : α → List Nat} {k : List Nat} {l : List α} {y : α}
     (h : lookup key k l = some y) : y ∈ l ∧ key y = k := by
   unfold lookup at h
   exact ⟨List.mem_of_find?_eq_some h, by simpa using List.find?_some h⟩
@@ -61,7 +61,7 @@ theorem upsert_keys_of_lookup {α : Type} (key : α → List Nat) (x y : α) (l 
       simp only [h1', Bool.false_eq_true, if_false]
       have h' : lookup key (key x) zs = some y := by
         simpa [lookup, List.find?, h1'] using h
-      have hy := lookup_mem h'
+      have hy := lookup_memQ h'
       have hlt := hs'.1 y hy.1
       rw [hy.2] at hlt
       rw [ltL_asymm _ _ hlt]
@@ -149,7 +149,7 @@ theorem sumBy_ge_mem {α : Type} (f : α → Int) (l : List α) (h : ∀ x ∈ l
     · have := ih (fun z hz => h z (List.mem_cons_of_mem _ hz)) hx
       omega
 
-theorem sumBy_zero {α : Type} (f : α → Int) (l : List α) (h : ∀ x ∈ l, f x = 0) : sumBy f l = 0 := by
+theorem sumBy_zeroQ {α : Type} (f : α → Int) (l : List α) (h : ∀ x ∈ l, f x = 0) : sumBy f l = 0 := by
   induction l with
   | nil => rfl
   | cons x xs ih =>
@@ -168,7 +168,7 @@ theorem sumBy_key {α : Type} (key : α → List Nat) (f : α → Int) (k : List
     by_cases h1 : (key z == k) = true
     · have e : key z = k := by simpa using h1
       have : sumBy (fun y => if key y == k then f y else 0) zs = 0 := by
-        apply sumBy_zero
+        apply sumBy_zeroQ
         intro w hw
         have := ltL_ne _ _ (hs'.1 w hw)
         rw [e] at this
@@ -192,49 +192,49 @@ open Sge Sge.Genesis
 -- ---------------------------------------------------------------------------------------------
 -- the stores of a book
 
-abbrev qkey (x : Nat × List Nat) : List Nat := [x.1]
+abbrev qkeyQ (x : Nat × List Nat) : List Nat := [x.1]
 
-theorem Book.getQueue_eq_lookup (b : Book) (o : Nat) : b.getQueue o = (lookup qkey [o] b.queues).map (·.2) := by
+theorem Book.getQueue_eq_lookup (b : Book) (o : Nat) : b.getQueue o = (lookup qkeyQ [o] b.queues).map (·.2) := by
   unfold Book.getQueue lookup
-  have : (fun q : Nat × List Nat => q.1 == o) = (fun y => qkey y == [o]) := by
-    funext x; simp [qkey]
+  have : (fun q : Nat × List Nat => q.1 == o) = (fun y => qkeyQ y == [o]) := by
+    funext x; simp [qkeyQ]
   rw [this]
 
 theorem Book.getQueue_setQueue_self (b : Book) (o : Nat) (q : List Nat) : (b.setQueue o q).getQueue o = some q := by
   rw [Book.getQueue_eq_lookup]
-  show Option.map _ (lookup qkey (qkey (o, q)) (upsert qkey (o, q) b.queues)) = _
+  show Option.map _ (lookup qkeyQ (qkeyQ (o, q)) (upsert qkeyQ (o, q) b.queues)) = _
   rw [lookup_upsert_self]; rfl
 
 theorem Book.getQueue_setQueue_ne (b : Book) (o o' : Nat) (q : List Nat) (h : o ≠ o') :
     (b.setQueue o q).getQueue o' = b.getQueue o' := by
   rw [Book.getQueue_eq_lookup, Book.getQueue_eq_lookup]
-  show Option.map _ (lookup qkey [o'] (upsert qkey (o, q) b.queues)) = _
-  rw [lookup_upsert_ne qkey (o, q) [o'] b.queues (by simp [qkey, h])]
+  show Option.map _ (lookup qkeyQ [o'] (upsert qkeyQ (o, q) b.queues)) = _
+  rw [lookup_upsert_ne qkeyQ (o, q) [o'] b.queues (by simp [qkeyQ, h])]
 
 theorem Book.getQueue_mem {b : Book} {o : Nat} {q : List Nat} (h : b.getQueue o = some q) : (o, q) ∈ b.queues := by
   rw [Book.getQueue_eq_lookup] at h
   simp only [Option.map_eq_some_iff] at h
   obtain ⟨x, hx, rfl⟩ := h
-  have := lookup_mem hx
-  have e : x.1 = o := by simpa [qkey] using this.2
+  have := lookup_memQ hx
+  have e : x.1 = o := by simpa [qkeyQ] using this.2
   rw [← e]; exact this.1
 
-theorem Book.mem_getQueue {b : Book} (hs : Sorted qkey b.queues) {oq : Nat × List Nat} (h : oq ∈ b.queues) :
+theorem Book.mem_getQueue {b : Book} (hs : Sorted qkeyQ b.queues) {oq : Nat × List Nat} (h : oq ∈ b.queues) :
     b.getQueue oq.1 = some oq.2 := by
   rw [Book.getQueue_eq_lookup]
-  have := mem_lookup qkey oq b.queues hs h
-  show Option.map _ (lookup qkey (qkey oq) b.queues) = _
+  have := mem_lookup qkeyQ oq b.queues hs h
+  show Option.map _ (lookup qkeyQ (qkeyQ oq) b.queues) = _
   rw [this]; rfl
 
 /-- overwriting the queue of an outcome that has one keeps the outcomes of the book -/
-theorem Book.setQueue_keys (b : Book) (o : Nat) (q : List Nat) (hs : Sorted qkey b.queues) (h : (b.getQueue o).isSome) :
-    (b.setQueue o q).queues.map (·.1) = b.queues.map (·.1) ∧ Sorted qkey (b.setQueue o q).queues := by
-  refine ⟨?_, upsert_sorted qkey _ _ hs⟩
+theorem Book.setQueue_keys (b : Book) (o : Nat) (q : List Nat) (hs : Sorted qkeyQ b.queues) (h : (b.getQueue o).isSome) :
+    (b.setQueue o q).queues.map (·.1) = b.queues.map (·.1) ∧ Sorted qkeyQ (b.setQueue o q).queues := by
+  refine ⟨?_, upsert_sorted qkeyQ _ _ hs⟩
   rw [Book.getQueue_eq_lookup] at h
-  cases hl : lookup qkey [o] b.queues with
+  cases hl : lookup qkeyQ [o] b.queues with
   | none => rw [hl] at h; cases h
   | some y =>
-    have := upsert_keys_of_lookup qkey (o, q) y b.queues hs hl
+    have := upsert_keys_of_lookup qkeyQ (o, q) y b.queues hs hl
     have h2 := congrArg (List.map (fun k : List Nat => k.headD 0)) this
     simp only [List.map_map] at h2
     exact h2
@@ -251,7 +251,7 @@ theorem Book.getExp_setExp_ne (b : Book) (e : PExp) (o i : Nat) (h : ¬ (e.odds 
       simpa [PExp.key] using hc)
 
 theorem Book.getExp_key {b : Book} {o i : Nat} {e : PExp} (h : b.getExp o i = some e) : e.odds = o ∧ e.idx = i ∧ e ∈ b.pexps := by
-  have := lookup_mem h
+  have := lookup_memQ h
   have hk : e.odds = o ∧ e.idx = i := by simpa [PExp.key] using this.2
   exact ⟨hk.1, hk.2, this.1⟩
 
@@ -262,7 +262,7 @@ theorem Book.mem_getPart {b : Book} (hs : Sorted Part.key b.parts) {p : Part} (h
     b.getPart p.idx = some p := mem_lookup Part.key p b.parts hs h
 
 theorem Book.getPart_mem {b : Book} {i : Nat} {p : Part} (h : b.getPart i = some p) : p ∈ b.parts ∧ p.idx = i := by
-  have := lookup_mem h
+  have := lookup_memQ h
   exact ⟨this.1, by simpa [Part.key] using this.2⟩
 
 /-- the participation indices of a book whose index list is `1..n` -/
@@ -402,11 +402,11 @@ theorem unfAt_eq {i : Nat} {e : PExp} (h : e.idx = i) : unfAt i e = if e.fulfill
 
 /-- store-level well-formedness of a book. `live i` marks the participations whose counters are currently
     written back (all of them between two messages; all but the one in process inside the wager loop). -/
-structure SInv (b : Book) (live : Nat → Prop) : Prop where
+structure BkSInv (b : Book) (live : Nat → Prop) : Prop where
   sP : Sorted Part.key b.parts
   sE : Sorted PExp.key b.pexps
   sH : Sorted PExp.hkey b.hist
-  sQ : Sorted qkey b.queues
+  sQ : Sorted qkeyQ b.queues
   pIdx : b.parts.map (·.idx) = List.range' 1 b.partCount
   oc : b.queues.length = b.oddsCount
   eKey : ∀ e ∈ b.pexps, 1 ≤ e.idx ∧ e.idx ≤ b.partCount
@@ -423,17 +423,17 @@ def QV (b : Book) (qv : Nat → Option (List Nat)) : Prop :=
 
 /-- the queue well-formedness invariant of a stored book -/
 structure QInv (b : Book) : Prop where
-  s : SInv b (fun _ => True)
+  s : BkSInv b (fun _ => True)
   q : QV b b.getQueue
 
-theorem SInv.weaken {b : Book} {live live' : Nat → Prop} (h : SInv b live) (hl : ∀ j, live' j → live j) : SInv b live' :=
+theorem BkSInv.weaken {b : Book} {live live' : Nat → Prop} (h : BkSInv b live) (hl : ∀ j, live' j → live j) : BkSInv b live' :=
   ⟨h.sP, h.sE, h.sH, h.sQ, h.pIdx, h.oc, h.eKey, h.hKey, h.eAll, fun i p hi => h.nf i p (hl i hi), h.ne,
    fun i hi => h.rnd i (hl i hi)⟩
 
 /-- changes that leave participations, exposures and history alone and keep the outcomes of the queues -/
-theorem SInv.of_stores {b b' : Book} {live : Nat → Prop} (h : SInv b live) (hp : b'.parts = b.parts) (he : b'.pexps = b.pexps)
+theorem BkSInv.of_stores {b b' : Book} {live : Nat → Prop} (h : BkSInv b live) (hp : b'.parts = b.parts) (he : b'.pexps = b.pexps)
     (hh : b'.hist = b.hist) (hc : b'.partCount = b.partCount) (ho : b'.oddsCount = b.oddsCount)
-    (hk : b'.queues.map (·.1) = b.queues.map (·.1)) (hs : Sorted qkey b'.queues) : SInv b' live := by
+    (hk : b'.queues.map (·.1) = b.queues.map (·.1)) (hs : Sorted qkeyQ b'.queues) : BkSInv b' live := by
   have hgp : ∀ i, b'.getPart i = b.getPart i := by intro i; unfold Book.getPart; rw [hp]
   have hge : ∀ o i, b'.getExp o i = b.getExp o i := by intro o i; unfold Book.getExp; rw [he]
   refine ⟨by rw [hp]; exact h.sP, by rw [he]; exact h.sE, by rw [hh]; exact h.sH, hs, by rw [hp, hc]; exact h.pIdx, ?_,
@@ -450,9 +450,9 @@ theorem SInv.of_stores {b b' : Book} {live : Nat → Prop} (h : SInv b live) (hp
     rw [he]; exact h.nf i p hl hg
 
 /-- writing an exposure over a stored one of the same round -/
-theorem SInv.setExp {b : Book} {live live' : Nat → Prop} (h : SInv b live) (e' e0 : PExp)
+theorem BkSInv.setExp {b : Book} {live live' : Nat → Prop} (h : BkSInv b live) (e' e0 : PExp)
     (h0 : b.getExp e'.odds e'.idx = some e0) (hr : e'.round = e0.round)
-    (hl : ∀ j, live' j → live j ∧ (j = e'.idx → e'.fulfilled = e0.fulfilled)) : SInv (b.setExp e') live' := by
+    (hl : ∀ j, live' j → live j ∧ (j = e'.idx → e'.fulfilled = e0.fulfilled)) : BkSInv (b.setExp e') live' := by
   obtain ⟨k1, k2, k3⟩ := Book.getExp_key h0
   have hlk : lookup PExp.key (PExp.key e') b.pexps = some e0 := h0
   have hge : ∀ o i, ((b.setExp e').getExp o i).isSome = (b.getExp o i).isSome := by
@@ -494,11 +494,11 @@ theorem SInv.setExp {b : Book} {live live' : Nat → Prop} (h : SInv b live) (e'
     · exact r1 e he.1 hei
 
 /-- writing a participation over the stored one -/
-theorem SInv.setPart {b : Book} {live live' : Nat → Prop} (h : SInv b live) (p' p0 : Part)
+theorem BkSInv.setPart {b : Book} {live live' : Nat → Prop} (h : BkSInv b live) (p' p0 : Part)
     (h0 : b.getPart p'.idx = some p0)
     (hl : ∀ j, live' j → (j = p'.idx → (p'.notFilled : Int) = sumBy (unfAt j) b.pexps) ∧ (j ≠ p'.idx → live j))
     (hr : ∀ j, live' j → j = p'.idx → ∃ r, (∀ e ∈ b.pexps, e.idx = j → e.round = r) ∧ (∀ h ∈ b.hist, h.idx = j → h.round < r)) :
-    SInv (b.setPart p') live' := by
+    BkSInv (b.setPart p') live' := by
   refine ⟨upsert_sorted Part.key p' b.parts h.sP, h.sE, h.sH, h.sQ, ?_, h.oc, h.eKey, h.hKey, h.eAll, ?_, h.ne, ?_⟩
   · rw [Book.setPart_idx b p' p0 h.sP h0]; exact h.pIdx
   · intro i p hli hg
@@ -513,7 +513,7 @@ theorem SInv.setPart {b : Book} {live live' : Nat → Prop} (h : SInv b live) (p
     · exact hr i hli hi
     · exact h.rnd i ((hl i hli).2 hi)
 
-theorem SInv.inRange_iff {b : Book} {live : Nat → Prop} (h : SInv b live) (i : Nat) :
+theorem BkSInv.inRange_iff {b : Book} {live : Nat → Prop} (h : BkSInv b live) (i : Nat) :
     (∃ p, b.getPart i = some p) ↔ (1 ≤ i ∧ i ≤ b.partCount) := by
   rw [← idx_range_mem h.pIdx]
   constructor
@@ -567,11 +567,11 @@ open Sge Sge.Genesis
 theorem Book.getQueue_congr {b b' : Book} (h : b'.queues = b.queues) (o : Nat) : b'.getQueue o = b.getQueue o := by
   unfold Book.getQueue; rw [h]
 
-theorem sorted_qkey_pairwise {l : List (Nat × List Nat)} (h : Sorted qkey l) : l.Pairwise (fun a c => a.1 ≠ c.1) := by
+theorem sorted_qkey_pairwise {l : List (Nat × List Nat)} (h : Sorted qkeyQ l) : l.Pairwise (fun a c => a.1 ≠ c.1) := by
   unfold Sorted at h
   refine List.Pairwise.imp ?_ h
   intro a c hac e
-  simp only [qkey] at hac
+  simp only [qkeyQ] at hac
   rw [e, ltL_irrefl] at hac
   cases hac
 
@@ -608,8 +608,8 @@ theorem foldQueues_getQueue (step : Book → Nat × List Nat → Book) (g : Nat 
 
 theorem foldQueues_keys (step : Book → Nat × List Nat → Book) (g : Nat × List Nat → List Nat)
     (hstep : ∀ b oq, (step b oq).queues = (b.setQueue oq.1 (g oq)).queues) :
-    ∀ (l : List (Nat × List Nat)) (b : Book), Sorted qkey b.queues → (∀ oq ∈ l, oq.1 ∈ b.queues.map (·.1)) →
-      (l.foldl step b).queues.map (·.1) = b.queues.map (·.1) ∧ Sorted qkey (l.foldl step b).queues := by
+    ∀ (l : List (Nat × List Nat)) (b : Book), Sorted qkeyQ b.queues → (∀ oq ∈ l, oq.1 ∈ b.queues.map (·.1)) →
+      (l.foldl step b).queues.map (·.1) = b.queues.map (·.1) ∧ Sorted qkeyQ (l.foldl step b).queues := by
   intro l
   induction l with
   | nil => intro b hs _; exact ⟨rfl, hs⟩
@@ -626,9 +626,9 @@ theorem foldQueues_keys (step : Book → Nat × List Nat → Book) (g : Nat × L
 
 /-- the loop over the book's own queues -/
 theorem foldQueues_self (step : Book → Nat × List Nat → Book) (g : Nat × List Nat → List Nat)
-    (hstep : ∀ b oq, (step b oq).queues = (b.setQueue oq.1 (g oq)).queues) (b : Book) (hs : Sorted qkey b.queues) :
+    (hstep : ∀ b oq, (step b oq).queues = (b.setQueue oq.1 (g oq)).queues) (b : Book) (hs : Sorted qkeyQ b.queues) :
     (∀ o, (b.queues.foldl step b).getQueue o = (b.getQueue o).map (fun q => g (o, q))) ∧
-    (b.queues.foldl step b).queues.map (·.1) = b.queues.map (·.1) ∧ Sorted qkey (b.queues.foldl step b).queues := by
+    (b.queues.foldl step b).queues.map (·.1) = b.queues.map (·.1) ∧ Sorted qkeyQ (b.queues.foldl step b).queues := by
   refine ⟨?_, foldQueues_keys step g hstep b.queues b hs (fun oq h => List.mem_map.mpr ⟨oq, h, rfl⟩)⟩
   intro o
   rw [foldQueues_getQueue step g hstep b.queues b (sorted_qkey_pairwise hs) o]
@@ -784,8 +784,8 @@ theorem addParticipation_QInv (b : Book) (addr : Nat) (liq fee : Int) (h : QInv 
     omega
   obtain ⟨g1, g2, g3, g4, g5, g6⟩ := freshFold (b.partCount + 1) b1.queues b.pexps hS.sE (sorted_qkey_pairwise hS.sQ)
     (fun e he hen => absurd hen (hnoN e he))
-  have hz1 : sumBy (cntAt (b.partCount + 1)) b.pexps = 0 := sumBy_zero _ _ (fun e he => cntAt_ne (hnoN e he))
-  have hz2 : sumBy (unfAt (b.partCount + 1)) b.pexps = 0 := sumBy_zero _ _ (fun e he => unfAt_ne (hnoN e he))
+  have hz1 : sumBy (cntAt (b.partCount + 1)) b.pexps = 0 := sumBy_zeroQ _ _ (fun e he => cntAt_ne (hnoN e he))
+  have hz2 : sumBy (unfAt (b.partCount + 1)) b.pexps = 0 := sumBy_zeroQ _ _ (fun e he => unfAt_ne (hnoN e he))
   -- name the result
   generalize hB : (b.addParticipation addr liq fee).1 = B
   have eParts : B.parts = upsert Part.key np b.parts := by rw [← hB]; exact f1
@@ -797,7 +797,7 @@ theorem addParticipation_QInv (b : Book) (addr : Nat) (liq fee : Int) (h : QInv 
   have eQ : ∀ o, B.getQueue o = (b.getQueue o).map (fun q => q ++ [b.partCount + 1]) := by
     intro o; rw [← hB]; exact q1 o
   have eKeys : B.queues.map (·.1) = b.queues.map (·.1) := by rw [← hB]; exact q2
-  have eSQ : Sorted qkey B.queues := by rw [← hB]; exact q3
+  have eSQ : Sorted qkeyQ B.queues := by rw [← hB]; exact q3
   have hgp : ∀ i, i ≠ b.partCount + 1 → B.getPart i = b.getPart i := by
     intro i hi
     unfold Book.getPart; rw [eParts]
@@ -955,8 +955,8 @@ theorem withdraw_QInv (b b' : Book) (idx : Nat) (w : Int) (h : QInv b) (hw : b.w
     rw [hp] at hw
     simp only at hw
     have hpi := Book.getPart_idx hp
-    have hS1 : SInv (b.setPart { p with crl := p.crl - w, liq := p.liq - w }) (fun _ => True) := by
-      apply SInv.setPart hS _ p (by show b.getPart p.idx = some p; rw [hpi]; exact hp)
+    have hS1 : BkSInv (b.setPart { p with crl := p.crl - w, liq := p.liq - w }) (fun _ => True) := by
+      apply BkSInv.setPart hS _ p (by show b.getPart p.idx = some p; rw [hpi]; exact hp)
       · intro j _
         refine ⟨fun hj => ?_, fun _ => trivial⟩
         have hj : j = idx := hj.trans hpi
@@ -977,7 +977,7 @@ theorem withdraw_QInv (b b' : Book) (idx : Nat) (w : Int) (h : QInv b) (hw : b.w
         (fun oq => oq.2.filter (fun j => j != idx)) (fun _ _ => rfl) b1 hS1.sQ
       obtain ⟨f1, f2, f3, f4, f5, _⟩ := setQueueFold_fields (fun oq => oq.2.filter (fun j => j != idx)) b1.queues b1
       constructor
-      · exact SInv.of_stores hS1 f1 f2 f3 f4 f5 q2 q3
+      · exact BkSInv.of_stores hS1 f1 f2 f3 f4 f5 q2 q3
       · apply QV.mono hQ1 f4
         intro o q' hq'
         rw [q1 o] at hq'
